@@ -57,7 +57,7 @@ def run_item(it):
             first = next((l.strip() for l in lines if l.startswith('  ')), '')
             verdict = {0: 'silent', 1: 'VIOLATION', 2: 'inconclusive'}.get(rr.returncode, f'rc{rr.returncode}')
             if rr.returncode == 2:
-                first = next((l for l in lines if l.startswith(('ANALYSIS-BROKEN', 'INCONCLUSIVE'))), '')
+                first = next((l for l in lines if 'anchor=internal' in l), '') or next((l for l in lines if l.startswith(('ANALYSIS-BROKEN', 'INCONCLUSIVE'))), '')
             res[p] = dict(verdict=verdict, first=first[:300])
         return dict(it, compiles=comp.returncode == 0, results=res)
     finally:
@@ -81,6 +81,7 @@ for o in out:
         ok = all((p in viol or p in inc) for p in o['expect'] if p in props)
     else:
         ok = all(p in viol for p in o['expect'] if p in props) if o['expect'] else bool(viol)
+    if any('anchor=internal' in (r.get('first') or '') for r in o['results'].values()): ok = False      # a crash of the checker is never an acceptable verdict
     status = 'ok  ' if ok else 'MISS' if o['kind'] not in ('benign', 'refactor') else 'FALSE-ALARM'
     if not ok: bad += 1
     print(f"{status} {o['name']:45s} compiles={o.get('compiles')} expect={','.join(o['expect']) or '-':12s} VIOLATION={','.join(viol) or '-'} inconclusive={','.join(inc) or '-'}")
